@@ -1,4 +1,5 @@
 import Tmv.Lemmas.MConn
+import Tmv.Model.PeerMsgs
 /-! # C17 — channel messages arrive intact and in order; bad peer input only drops the peer
 
 Model: `Tmv.Model.MConn` (p2p/conn/connection.go) and `Tmv.Model.PeerMsgs` (consensus message
@@ -165,5 +166,90 @@ theorem bad_length_prefix_stops (r : Receiver) (bytes : Bytes) (pkt : Packet) (h
     · exact ⟨.tooBig, { r with stopped := some .tooBig }, by simp [hup, h, hb, hv, Receiver.fail], rfl, rfl⟩
 
 example : readUvarint (List.replicate 11 0xff) = .overflow := by decide
+
+/-! ## clause 4 (partial): validated messages keep the handlers' index uses in range -/
+
+open Tmv.PeerMsgs in
+/-- A bit array that passed `BitArray.ValidateBasic` can be indexed (`SetIndex`/`GetIndex`) at ANY
+non-negative index without leaving `Elems`. -/
+theorem validated_setIndex_in_bounds (b : BitArr) (hv : BitArr.validateBasic (some b) = true)
+    (i : Int) (hi : 0 ≤ i) : indexPanics (some b) i = false := by
+  simp only [BitArr.validateBasic, Bool.and_eq_true, decide_eq_true_eq] at hv
+  obtain ⟨h0, he⟩ := hv
+  unfold indexPanics
+  simp only
+  split
+  · rfl
+  · rename_i hlt
+    have h1 : ¬ (Int.tdiv i 64 < 0) := by
+      have := Int.tdiv_nonneg hi (by decide : (0:Int) ≤ 64); omega
+    have h2 : ¬ (Int.tdiv i 64 ≥ (b.elems : Int)) := by
+      rw [he, Int.tdiv_eq_ediv_of_nonneg hi]; omega
+    simp [h1, h2]
+
+open Tmv.PeerMsgs in
+/-- bit arrays the node allocates itself (`bits.NewBitArray`) are consistent -/
+theorem newBitArray_valid (n : Int) : BitArr.validateBasic (newBitArray n) = true := by
+  unfold newBitArray
+  split
+  · rfl
+  · simp only [BitArr.validateBasic, Bool.and_eq_true, decide_eq_true_eq]
+    omega
+
+open Tmv.PeerMsgs in
+/-- `validated_handlers_in_bounds`, PARTIAL: every bit array that a message passing
+`ValidateBasic` installs in the peer state (NewValidBlock.BlockParts → ProposalBlockParts,
+ProposalPOL.ProposalPOL, VoteSetBits.Votes via Update) is consistent, hence the handlers' and the
+gossip routines' `SetIndex` calls on it — with the non-negative indices they use: a validated
+`HasVote.Index`, a uint32 part index, a validator index of one of the node's own votes — stay in
+range. What is NOT modelled (and why this is `_partial`): the full `PeerRoundState` transition
+functions, `Sub`/`Or`/`Update`/`PickRandom` loops (they bound their loops by `len(Elems)` of
+both operands), and the other reactors (stream (b) exercises them). -/
+theorem validated_handlers_in_bounds_partial :
+    (∀ m : NewValidBlock, m.valid = true → ∀ i : Int, 0 ≤ i → indexPanics m.parts i = false) ∧
+    (∀ m : ProposalPOL, m.valid = true → ∀ i : Int, 0 ≤ i → indexPanics m.pol i = false) ∧
+    (∀ m : VoteSetBits, m.valid = true → ∀ i : Int, 0 ≤ i → indexPanics m.votes i = false) ∧
+    (∀ m : HasVote, m.valid = true → 0 ≤ m.index) := by
+  have key : ∀ (b : Option BitArr), BitArr.validateBasic b = true → ∀ i : Int, 0 ≤ i →
+      indexPanics b i = false := by
+    intro b hb i hi
+    cases b with
+    | none => rfl
+    | some a => exact validated_setIndex_in_bounds a hb i hi
+  refine ⟨?_, ?_, ?_, ?_⟩
+  · intro m hm
+    apply key
+    unfold NewValidBlock.valid at hm
+    by_cases h : BitArr.validateBasic m.parts = true
+    · exact h
+    · simp [h] at hm
+  · intro m hm
+    apply key
+    unfold ProposalPOL.valid at hm
+    by_cases h : BitArr.validateBasic m.pol = true
+    · exact h
+    · simp [h] at hm
+  · intro m hm
+    apply key
+    unfold VoteSetBits.valid at hm
+    by_cases h : BitArr.validateBasic m.votes = true
+    · exact h
+    · simp [h] at hm
+  · intro m hm
+    unfold HasVote.valid at hm
+    by_cases h : m.index < 0
+    · simp [h] at hm
+    · omega
+
+open Tmv.PeerMsgs in
+/-- why the `Elems` check is needed: without it a NewValidBlock with `Bits = Total = 81` and one
+element passes every other guard and index 70 leaves `Elems` (the pre-repair crash) -/
+theorem short_elems_would_panic :
+    indexPanics (some { bits := 81, elems := 1 }) 70 = true ∧
+    BitArr.validateBasic (some { bits := 81, elems := 1 }) = false := by decide
+
+open Tmv.PeerMsgs in
+example : (NewValidBlock.valid { height := 1, round := 0, total := 81, hashLen := 32,
+    parts := newBitArray 81 }) = true := by decide
 
 end Tmv.Props.C17
